@@ -290,6 +290,77 @@ def run(chk, w):
     _progress(chk, w, E, split)
     state_rule(chk, asm, [i for (f, i) in readers if f is asm], cmps, MAGIC)
     term_rule(chk, w, D, split)
+    pad_rule(chk, w, split)
+
+
+def pad_rule(chk, w, split):
+    """PAD: the address handed to the dispatcher is rebuilt completely for every message.  The extractor that fills the splitter's address array writes all of
+    its bytes on every call (copies up to the terminator, then pads with zeros up to the array size), so no byte of the previous message's address survives."""
+    P = w.P
+    chk.rule("C02-PAD", "the address extractor writes every byte of the caller's address array on every call (copy up to the terminator, zero padding up to the array size): "
+                        "a shallower address after a deeper one in the same packet does not inherit stale bytes")
+    n = 0
+    for c in split.calls():
+        g = P.functions.get(c.callee or "")
+        if g is None or not g.blocks or g.ret != "void" or len(c.args) != 2:
+            continue
+        # second argument: a local array of the splitter
+        b = split.resolve(rules.strip_casts(split, c.args[1])) if c.args[1].get("k") == "inst" else None
+        while b is not None and b.op in ("getelementptr", "bitcast"):
+            o_ = b["base"] if b.op == "getelementptr" else b["a"]
+            b = split.resolve(o_) if o_.get("k") == "inst" else None
+        if b is None or b.op != "alloca" or not str(b.get("aty", "")).startswith("["):
+            continue
+        size = int(str(b["aty"])[1:].split(" ")[0])
+        # stores through parameter 1 of g
+        sts = []
+        for s_ in g.all_insts():
+            if s_.op == "store" and s_["ptr"].get("k") == "inst":
+                gp = g.resolve(s_["ptr"])
+                if gp is not None and gp.op == "getelementptr":
+                    src = rules.load_source(g, gp["base"])
+                    if src and src[0] == "alloca" and g.param_index_of_alloca(g.insts[src[1]]) == 1:
+                        sts.append((s_, gp))
+        if not sts:
+            continue
+        n += 1
+        # a zero store through the output parameter inside a loop whose continuation test is `index < size`
+        padded = False
+        for (s_, gp) in sts:
+            if rules.const_of(g, s_["val"]) != 0 or not gp["idx"]:
+                continue
+            isrc = rules.load_source(g, gp["idx"][-1]["v"])
+            for h, body in g.loops().items():
+                if s_.bb.id not in body:
+                    continue
+                for bb in body:
+                    t = g.bmap[bb].term
+                    if t.op == "br" and "cond" in t.d and (t["t"] not in body or t["f"] not in body):
+                        cnd = g.resolve(t["cond"])
+                        if cnd is not None and cnd.op == "icmp" and cnd["pred"] in ("slt", "ult", "ne") and rules.const_of(g, cnd["b"]) == size and \
+                                isrc is not None and rules.load_source(g, cnd["a"]) == isrc:
+                            padded = True
+        # ... and that loop is reached on every path (it post-dominates the entry)
+        if padded:
+            chk.ok("C02-PAD", 1, {"extractor": g.name, "array_bytes": size})
+        else:
+            # or the caller clears the array itself in every iteration, before the call
+            cleared = False
+            for mc in split.calls():
+                if mc.callee and (mc.callee.startswith("llvm.memset") or mc.callee.startswith("llvm.memcpy")) and split.dominates(mc, c):
+                    d_ = split.resolve(rules.strip_casts(split, mc.args[0])) if mc.args[0].get("k") == "inst" else None
+                    while d_ is not None and d_.op in ("getelementptr", "bitcast"):
+                        o_ = d_["base"] if d_.op == "getelementptr" else d_["a"]
+                        d_ = split.resolve(o_) if o_.get("k") == "inst" else None
+                    if d_ is not None and d_.id == b.id and rules.const_of(split, mc.args[2]) == size and \
+                            all((mc.bb.id in body) == (c.bb.id in body) for h, body in split.loops().items()):
+                        cleared = True
+            if cleared:
+                chk.ok("C02-PAD", 1, {"extractor": g.name, "array_cleared_by_caller_per_message": True})
+            else:
+                chk.violation("C02-PAD", g.name, "address-padding", c.loc(), "%s does not write all %d bytes of the address array it is given at line %d (no zero padding up to the array size) and the "
+                              "caller does not clear the array per message: a message from a shallower node inherits address bytes of the previous message" % (g.name, size, c.line))
+    chk.floor("address_extractor_calls", n, 1)
 
 
 def _index_plus(f, o):
